@@ -13,6 +13,10 @@ Model: `live` = ids in the list (ascending); the successor of a live id is the f
 greater than it; `frozen` remembers, for every removed id, the successor it had when it was removed.
 `Sys`: any number of iterators (three steps per element: arrive, consumer call, read next), of
 `Hook` callers (attach a fresh id at the tail) and of `Unhook` callers.
+
+The executable line machine of the harness's `it` section lives in `EventsRelink.lean` (same
+registry with one more ghost component; `proj_attach`, `proj_delete`, `proj_next` in
+`Proofs/EventsRelink.lean` show that forgetting the ghost gives exactly this registry).
 -/
 namespace Hive.EventsIter
 open Hive.Conc
@@ -78,40 +82,5 @@ def Th.initial : Th → Bool
   | .att false => true
   | .del _ false => true
   | _ => false
-
-/-! ## line protocol (`it …`): one event, callbacks that hook / unhook while `Trigger` iterates -/
-open Hive.Proto
-
-structure LSt where
-  reg : Reg
-  cur : Option ItPc     -- the running iteration, if any
-deriving Repr
-
-def linit : LSt := { reg := Reg.empty, cur := none }
-
-def stepLine (s : LSt) (toks : List String) : LSt × String :=
-  match toks with
-  | ["hook"] => ({ s with reg := attach s.reg }, s!"h{s.reg.counter}")
-  | ["unhook", h] =>
-    match h.toNat? with
-    | some h => if h < s.reg.counter then ({ s with reg := delete s.reg (h + 1) }, "done") else (s, "bad-op")
-    | none => (s, "bad-op")
-  | ["begin", _] =>
-    match s.cur with
-    | none => ({ s with cur := some .start }, "begun")
-    | some _ => (s, "bad-op")
-  | ["visit"] =>
-    match s.cur with
-    | none => (s, "idle")
-    | some pc =>
-      let nxt := match pc with
-        | .start => s.reg.live.head?
-        | .after x => next s.reg x
-        | .at x => some x
-        | .fin => none
-      match nxt with
-      | some y => ({ s with cur := some (.after y) }, s!"h{y - 1}")
-      | none => ({ s with cur := none }, "end")
-  | _ => (s, "bad-op")
 
 end Hive.EventsIter
